@@ -32,12 +32,12 @@
 using namespace manifold;
 
 #ifdef VERIF_HAS_HOOK
-struct Ev { const char* file; int line; int done; int total; bool cancelled; };
+struct Ev { long seq; const char* file; int line; int done; int total; bool cancelled; };
 static std::mutex g_mu;
 static std::vector<Ev> g_log;
-static void Observer(void*, long, const char* file, int line, int done, int total, bool cancelled) {
+static void Observer(void*, long seq, const char* file, int line, int done, int total, bool cancelled) {
   std::lock_guard<std::mutex> lock(g_mu);
-  g_log.push_back({file, line, done, total, cancelled});
+  g_log.push_back({seq, file, line, done, total, cancelled});
 }
 #endif
 
@@ -217,7 +217,8 @@ int main() {
            "rb=%d rbh=%016llx rbdone=%d rbtotal=%d ops=%d nv=%zu nt=%zu\n",
            id.c_str(), k, N, st, empty, (unsigned long long)h, ctxc, done, total, requery, again_st, (unsigned long long)again_h,
            root_st, other_st, otherfm_st, rb_st, (unsigned long long)rb_h, rb_done, rb_total, opsSame, res.NumVert(), res.NumTri());
-    // site word and progress word, run-length coded
+    // site word and progress word, run-length coded; in check order (threads may report out of order)
+    std::stable_sort(g_log.begin(), g_log.end(), [](const Ev& a, const Ev& b) { return a.seq < b.seq; });
     {
       std::string w = "W " + id + " " + std::to_string(k), p = "P " + id + " " + std::to_string(k);
       size_t i = 0;
